@@ -3,6 +3,8 @@
            op = VL [VZ 0; VB name; VB value; VZ sensitive]   Encoder.WriteField
               | VL [VZ 1; VZ v]                              Encoder.SetMaxDynamicTableSize(v)
               | VL [VZ 2]                                    end of header block: Decoder.Write(block); Close()
+              | VL [VZ 2; VZ k]                              the same, but the receiver calls SetEmitEnabled(false)
+                                                             after k emitted fields (re-enabled for the next block)
    output: VL of one record per block:
            VL [VB block; VL decoded fields; VZ status; VZ encSize; VZ encMax; VZ decSize; VZ decMax] *)
 From Coq Require Import List ZArith Bool.
@@ -10,12 +12,13 @@ From Bfe Require Import lib.Val lib.Bytes model.Huffman model.Hpack.
 Import ListNotations.
 Open Scope Z_scope.
 
-Inductive op := OWrite (f : field) | OSetMax (v : Z) | OEnd.
+Inductive op := OWrite (f : field) | OSetMax (v : Z) | OEnd | OEndB (k : Z).
 Definition val_op (v : val) : option op :=
   match v with
   | VL [VZ 0; VB n; VB x; VZ s] => Some (OWrite (mkF n x (negb (s =? 0))))
   | VL [VZ 1; VZ m] => Some (OSetMax m)
   | VL [VZ 2] => Some OEnd
+  | VL [VZ 2; VZ k] => Some (OEndB k)
   | _ => None
   end.
 
@@ -43,6 +46,10 @@ Fixpoint run_ops (hd : bytes -> hres) (ops : list op) (e : enc) (d : dec) (blk :
     end
   | OEnd :: r =>
     let '(d', fs, st) := dec_run hd d [blk] [] in
+    if st =? ST_PANIC then None
+    else run_ops hd r e d' [] (block_record blk fs st e d' :: out)
+  | OEndB k :: r =>
+    let '(d', fs, st) := dec_run_e hd 0 d k [blk] [] in
     if st =? ST_PANIC then None
     else run_ops hd r e d' [] (block_record blk fs st e d' :: out)
   end.
@@ -79,6 +86,7 @@ Fixpoint expected_blocks (ops : list op) (cur : list field) : list (list field) 
   | OWrite f :: r => expected_blocks r (cur ++ [f])
   | OSetMax _ :: r => expected_blocks r cur
   | OEnd :: r => cur :: expected_blocks r []
+  | OEndB k :: r => take_b k cur :: expected_blocks r []      (* only the first k fields are emitted *)
   end.
 Definition block_ok (L : Z) (want : list field) (rec : val) : bool :=
   match rec with
@@ -114,6 +122,7 @@ Fixpoint wf_ops_b (ops : list op) (started : bool) : bool :=
   | OWrite f :: r => wf_field_b f && wf_ops_b r true
   | OSetMax v :: r => (0 <=? v) && negb started && wf_ops_b r started
   | OEnd :: r => wf_ops_b r false
+  | OEndB _ :: r => wf_ops_b r false
   end.
 Definition wf_C30 (i : val) : bool :=
   match decode_input i with
